@@ -27,7 +27,7 @@ Proof.
   destruct (next_ok defs fuel r VAwake _ (proj1 Q1)) as (A & B & _).
   destruct (next_ patched defs fuel r VAwake (lib (update_logical_time t s))) as [w3 o]. simpl in A, B.
   pose proof (pres_quiescent _ w3 Q1 A B) as Q3.
-  destruct o as [[| d | | | |] | e]; exact Q3.
+  destruct o as [[| d | | | | | d | | |] | e]; exact Q3.
 Qed.
 
 (* with the clearing assignment in an else clause, a routine that ends leaves the flag set and the
